@@ -142,6 +142,8 @@ def _simple(res, w, v, label):
     else:
         res.count('cases_ok')
         res.distinct('distinct_nontrivial', json.dumps(w, sort_keys=True, ensure_ascii=False))
+        if not res.samples:
+            res.sample({'case': w, 'outcome': 'ok'})
 
 
 def run_sitable(res):
